@@ -186,6 +186,60 @@ def run(ctx, driver):
                               "(whatever other scale objects existed before)", tags=dict(scale=name, clause="instance_independent"))
         del o
         gc.collect()
+    # public parameters re-assigned after construction (`low_hz`, `slope_hz` are documented attributes): the object then IS
+    # the scale with the new parameters, in both directions
+    for name, p0, p1 in (("linear", [0.0, 1.0], [0.0, 0.5]), ("linear", [20.0, 0.5], [5.0, 2.0]), ("octave", [440.0], [55.0]),
+                         ("octave", [20.0], [27.5])):
+        mk = S.OctaveScaling if name == "octave" else S.LinearScaling
+        o = mk(*p0)
+        float(o.hertz_to_scale(1000.0)), float(o.scale_to_hertz(1.0))     # used before it is retuned
+        if name == "octave":
+            o.low_hz = p1[0]
+        else:
+            o.low_hz, o.slope_hz = p1
+        ref = mk(*p1)
+        for f in (55.0, 100.0, 441.0, 1000.0, 3999.5):
+            case = dict(scale=name, params=p1, built_with=p0, hertz=f, retuned=True)
+            ctx.case(case, kind="retuned:" + name)
+            try:
+                s_, sr = float(o.hertz_to_scale(f)), float(ref.hertz_to_scale(f))
+                b_, br = float(o.scale_to_hertz(s_)), float(ref.scale_to_hertz(sr))
+            except Exception as e:
+                ctx.violation(case, "a number", "%s: %s" % (type(e).__name__, e), "the maps are defined on the whole domain",
+                              tags=dict(scale=name, clause="raises"))
+                continue
+            if s_ != sr or b_ != br:
+                ctx.violation(case, [sr, br], [s_, b_], "a scale whose public parameters were re-assigned is the scale with the new parameters",
+                              tags=dict(scale=name, clause="instance_independent"))
+            if not (abs(b_ - f) <= 1e-9 * max(1.0, abs(f))):
+                ctx.violation(case, f, b_, "scale_to_hertz(hertz_to_scale(f)) == f", tags=dict(scale=name, clause="left_inv"))
+    # "nice" decimal values ON THE SCALE AXIS (0.3 Bark, 2.0 Bark, 20.1 Bark, 1000 mel ...): the grids above reach the scale
+    # axis only through hertz_to_scale, which never returns such a value exactly
+    for name, params, o in objs[:8]:
+        prev = None
+        for k in range(0, 260):
+            sv = [k / 10.0, k * 10.0, float(k)][0 if name in ("bark", "octave") else (1 if name == "mel" else 2)]
+            if name == "bark" and sv > 24.0:
+                break
+            with np.errstate(all="ignore"):
+                try:
+                    h = float(o.scale_to_hertz(sv))
+                except Exception as e:
+                    ctx.violation(dict(scale=name, params=params, s=sv), "a number", "%s: %s" % (type(e).__name__, e), "scale_to_hertz raises",
+                                  tags=dict(scale=name, clause="raises"))
+                    continue
+            if not (0.0 <= h <= 1e5):
+                continue
+            case = dict(scale=name, params=params, s=sv, decimal_scale_value=True)
+            ctx.case(case, kind="scale_axis:" + name)
+            back = float(o.hertz_to_scale(h))
+            cases.append((name + "_s2h", params, sv, h))
+            if not (abs(back - sv) <= 1e-9 * max(1.0, abs(sv))):
+                ctx.violation(case, sv, back, "hertz_to_scale(scale_to_hertz(s)) == s", tags=dict(scale=name, clause="right_inv"))
+            if prev is not None and not (h > prev[1]):
+                ctx.violation(dict(case, prev=prev[0]), "s2h increasing", [prev[1], h], "scale_to_hertz strictly increasing",
+                              tags=dict(scale=name, clause="mono_s2h"))
+            prev = (sv, h)
     # integer-typed arguments are legal Python numbers: the maps must not depend on the argument's type
     for name, params, o in objs:
         for v in (0, 1, 2, 3, 20, 21, 24, 100, 1000):
